@@ -1,4 +1,4 @@
-mod util; mod skel; mod parsers; mod corpus; mod gen; mod pegcmp; mod report; mod api; mod c01; mod c16; mod c15; mod gen_pp; mod ppcmp; mod c06; mod calls; mod c20; mod c07;
+mod util; mod skel; mod parsers; mod corpus; mod gen; mod pegcmp; mod report; mod api; mod c01; mod c16; mod c15; mod gen_pp; mod ppcmp; mod c06; mod calls; mod c20; mod c07; mod ppref; mod ppo; mod c09; mod c18;
 
 fn main() {
     util::silence_panics();
@@ -14,6 +14,10 @@ fn main() {
         "c20" => c20::main(&args[1..]),
         "c07" => c07::main_c07(&args[1..]),
         "c19" => c07::main_c19(&args[1..]),
+        "c09" => c09::main(&args[1..]),
+        "c09-child" => c09::child(&args[1..]),
+        "c18" => c18::main(&args[1..]),
+        "c03" | "c04" | "c05" | "c10" | "c11" => ppo::main(&args[1..], &args[0]),
         "parse" => { let k = skel::Kinds::load(&args[1]); println!("{}", parsers::run(&args[2], Some(Some(1024)), &args[3], &k, true).line()); }
         x => { eprintln!("unknown command {}", x); std::process::exit(2); }
     }
